@@ -311,6 +311,8 @@ def check(ctx):
         ctx.check(w == r, "reader-writer-agreement", kind, "the %s record reader consumes %s but the writer emits %s" % (kind, r, w))
     ctx.sample({"fingerprint_excerpt": {"files": fp["files"], "hash": fp["hash"], "signatures": fp["signatures"]}})
     c02.check_seedless(ctx, prog, rule="placement-seedless")
+    from . import poscontrol
+    poscontrol.nondet_control(ctx)
 
 
 def _count_leaves(x):
